@@ -19,6 +19,7 @@ import (
 	"time"
 
 	plugin "github.com/hashicorp/go-plugin"
+	"google.golang.org/grpc"
 )
 
 // M is a decoded JSON object.
@@ -183,6 +184,22 @@ func (c *Core) do(ctx context.Context, id Ident, a M) (any, error) {
 		}
 		srvHandles.Store(fmt.Sprintf("%s/raw/%d", c.Instance, Int(a, "id")), ln)
 		return M{"addr": ln.Addr().String()}, nil
+	case "grpc-accept-storm":
+		// plugin code that keeps announcing brokered servers from a background worker (one every 5 ms, never
+		// dialled) for as long as the process lives; vplugin stops the worker shortly after Serve returned
+		b := c.GRPC()
+		if b == nil {
+			return nil, errors.New("no grpc broker")
+		}
+		if StormStarted.CompareAndSwap(false, true) {
+			go func() {
+				for !StormStop.Load() {
+					go b.AcceptAndServe(b.NextId(), func(opts []grpc.ServerOption) *grpc.Server { return grpc.NewServer(opts...) })
+					time.Sleep(5 * time.Millisecond)
+				}
+			}()
+		}
+		return M{}, nil
 	case "grpc-stop":
 		if h, ok := srvHandles.LoadAndDelete(fmt.Sprintf("%s/%d", c.Instance, Int(a, "id"))); ok {
 			h.(*AcceptHandle).Stop()
@@ -217,3 +234,6 @@ func (c *Core) do(ctx context.Context, id Ident, a M) (any, error) {
 }
 
 var srvHandles sync.Map
+
+// StormStarted / StormStop: the accept worker of "grpc-accept-storm".
+var StormStarted, StormStop atomic.Bool
